@@ -124,7 +124,9 @@ fn odd_frame(kind: OddFrame, tagn: usize) -> Frame {
         OddFrame::NearLimitMessage => {
             // headers None + payload: bincode size = 1 (None) + 8 (len) + n; choose n so the frame is exactly at the limit
             let n = 1024 * 1024 - 9;
-            Frame::Message(MessagePayload { headers: None, message: Bytes::from(vec![b'x'; n]) })
+            let mut body = format!("big{tagn}:").into_bytes();
+            body.resize(n, b'x');
+            Frame::Message(MessagePayload { headers: None, message: Bytes::from(body) })
         }
     }
 }
@@ -896,6 +898,26 @@ fn finish(mut run: Run<'_>, opts: &ExecOpts) -> Outcome {
             }
         }
     }
+    // a request the replier's sink refused to encode (it outgrew the frame limit when the routing
+    // tag was added) has been offered once; offering it again, to this or to a later replier,
+    // hands it over more than once
+    if checking {
+        let mut offered: HashMap<String, usize> = HashMap::new();
+        for q in 0..sc.n_rep {
+            for f in &w.sinks[n_req + q].refused_oversize {
+                if let Frame::Message(m) = f {
+                    let tag: String = String::from_utf8_lossy(&m.message[..m.message.len().min(12)]).to_string();
+                    *offered.entry(tag).or_insert(0) += 1;
+                }
+            }
+        }
+        for (tag, n) in offered {
+            run.out.probe("oversize_request_refused_by_replier_sink");
+            if n > 1 {
+                run.out.violate(prop, "request-duplicated", "reqrep-undeliverable-request-offered-again", format!("request {tag:?} exceeded the frame limit once tagged; it was offered to repliers {n} times"));
+            }
+        }
+    }
     // ---------- single bound replier that stays bound: exactly once ----------
     let registered_reps: Vec<usize> = (0..sc.n_rep).filter(|q| run.rep_reg[*q]).collect();
     // A peer that sent frames of the wrong kind may be dropped by a correct server; it is owed
@@ -1177,6 +1199,7 @@ pub static RR_REPLIERS: ReqRepFamily = ReqRepFamily { name: "reqrep-repliers", f
 pub static RR_SHUTDOWN: ReqRepFamily = ReqRepFamily { name: "reqrep-shutdown", flags: RrFlags { close: true, multi_replier: true, departures: true, ..BASE } };
 pub static RR_FAIL_RANDOM: ReqRepFamily = ReqRepFamily { name: "reqrep-fail-random", flags: RrFlags { fails: true, stream_errs: true, departures: true, multi_replier: true, ..BASE } };
 pub static RR_FRAMES: ReqRepFamily = ReqRepFamily { name: "reqrep-frames", flags: RrFlags { odd_frames: true, bad_tags: true, ..BASE } };
+pub static RR_FRAMES_REBIND: ReqRepFamily = ReqRepFamily { name: "reqrep-frames-rebind", flags: RrFlags { odd_frames: true, multi_replier: true, departures: true, ..BASE } };
 
 impl Family for ReqRepFamily {
     fn name(&self) -> &'static str {
